@@ -807,7 +807,7 @@ static uint64_t run_history(uint64_t fault_k, int persistent)
     return req_count;
 }
 
-static uint64_t vf_ncases(int tier) { return tier ? 500000 : 2400; }
+static uint64_t vf_ncases(int tier) { return tier ? 1000000 : 2400; }
 
 static void vf_case(uint64_t c, vf_rng *r)
 {
